@@ -175,6 +175,15 @@ Fixpoint all_some {A} (l : list (option A)) : option (list A) :=
 
 (* the values of the LOADED profile's samples under the selected index, checked without going
    through the aggregation model *)
+(* Scale and Unit, from the statement of Stacks(): the page shows Value*Scale in Unit, so Scale is the
+   factor from the sample unit to the default unit of its family (1 and no unit when the unit is
+   unknown), times the divide_by ratio when one is set (> 0); written with C15's declarative
+   [scale_spec] (S_Measure), not with the model's [scale_unit] *)
+Definition scale_ok (unit : string) (ratio : Q) (o : term) : bool :=
+  let r := if Qle_bool ratio 0 then 1%Q else ratio in
+  negb (String.eqb (gs (gn o 3)) "default")
+  && scale_spec unit_types 1 unit "default" (to_Q17 (gn o 1) / r)%Q (gs (gn o 3)).
+
 Definition loaded_values_ok (ix : nat) (loaded : profile) (R : stackset) : bool :=
   Nat.eqb (List.length (ss_stacks R)) (List.length (p_sample loaded))
   && forallb (fun ks => sk_value (fst ks) =? nth ix (s_val (snd ks)) 0) (combine (ss_stacks R) (p_sample loaded)).
@@ -186,7 +195,7 @@ Definition spec_C17 (i o : term) : bool :=
     | WebOk op unit p =>
         match stackset_of o with
         | Some (nulls, R) => check_stackset op p nulls R && loaded_values_ok (o_index op) (profile_of (gn i 1)) R
-                             && String.eqb (ss_type R) (o_type op)
+                             && String.eqb (ss_type R) (o_type op) && scale_ok unit (to_Q17 (gn i 4)) o
         | None => false
         end
     end
@@ -196,11 +205,14 @@ Definition spec_C17 (i o : term) : bool :=
     match all_some (map stackset_of (gl (gn o 0))) with
     | Some obs => check_calls (profile_of (gn i 1)) (map opts_of (seq_opts i)) obs
                   && term_eqb (gn i 1) (gn o 1)
+                  && forallb (fun oo => scale_ok (gs (gn (fst oo) 3)) (to_Q17 (gn (fst oo) 5)) (snd oo))
+                             (combine (seq_opts i) (gl (gn o 0)))
     | None => false
     end
   else
     match stackset_of o with
     | Some (nulls, R) => check_stackset (opts_of (gn i 1)) (profile_of (gn i 0)) nulls R
+                         && scale_ok (gs (gn (gn i 1) 3)) (to_Q17 (gn (gn i 1) 5)) o
     | None => false
     end.
 
